@@ -65,6 +65,7 @@ type tev struct {
 	Op  string `json:"op"`
 	Obj string `json:"obj"`
 	seq int64
+	via string // touch events: the accessor of the state that was called (not part of the trace TLC reads)
 }
 
 type role struct {
@@ -259,6 +260,7 @@ func translate(evs []rawEvent) *translated {
 				continue
 			}
 			emit(e, r.kind, id, "touch", s)
+			out.Lines[len(out.Lines)-1].via = e.Detail
 		default:
 			out.Dropped["unknown event kind "+e.Kind]++
 		}
